@@ -117,6 +117,42 @@ async fn in_context(pattern: &str, keys: &[String]) -> Result<(BTreeSet<String>,
     Ok((q, d, n))
 }
 
+/// every valid pattern subscribed at the same time on one core: the routing of one subscription must not
+/// depend on which other subscriptions exist
+async fn crowded(patterns: &[String], keys: &[String]) -> Result<Vec<(String, BTreeSet<String>)>, String> {
+    let mut wb = fresh_core(false);
+    let mut subs = vec![];
+    for (i, p) in patterns.iter().enumerate() {
+        if !model::pattern_valid(p) {
+            continue;
+        }
+        match res(wb.psubscribe(client_id(1), i as u64 + 1, p.clone(), false, true).await) {
+            Ok((rx, _)) => subs.push((p.clone(), rx)),
+            Err(c) => return Err(format!("psubscribe {p:?} rejected with error code {c}")),
+        }
+    }
+    for k in keys {
+        wb.set(k.clone(), json!(k), client_id(0), false)
+            .await
+            .map_err(|e| format!("set {k:?} rejected: {e}"))?;
+    }
+    let mut out = vec![];
+    for (p, mut rx) in subs {
+        let mut n = BTreeSet::new();
+        while let Ok(ev) = rx.try_recv() {
+            if let PStateEvent::KeyValuePairs(kvps) = ev {
+                for k in kvps {
+                    if !n.insert(k.key.clone()) {
+                        return Err(format!("psubscribe {p:?} (among all others): key {:?} notified twice for one set", k.key));
+                    }
+                }
+            }
+        }
+        out.push((p, n));
+    }
+    Ok(out)
+}
+
 pub fn run(ctx: &Ctx) -> Evidence {
     let mut ev = ctx.evidence("C04", "exploration");
     let f03 = ctx.findings.open("F03", "C04");
@@ -124,10 +160,31 @@ pub fn run(ctx: &Ctx) -> Evidence {
     let patterns = all_paths(&["a", "b", "", "?", "#"], pd);
     let keys: Vec<String> = all_paths(&["a", "b", ""], kd).into_iter().filter(|k| !k.is_empty()).collect();
     ev.rule = format!(
-        "every pattern over {{a,b,'',?,#}} up to depth {pd} ({} patterns) x every key over {{a,b,''}} up to depth {kd} ({} keys; the unstorable empty key left out): per pair on a fresh core holding only that key: live-only psubscribe of the pattern, set the key, then pget and pdelete of the pattern; required: returned = removed = notified = documented relation (a pattern with a non-final # must match nothing). Plus per pattern once with all keys present (nothing else returned / removed / notified). A pair is non-trivial if the documented relation holds for it or the pattern contains a wildcard; distinct = distinct (pattern, key) pairs.",
+        "every pattern over {{a,b,'',?,#}} up to depth {pd} ({} patterns) x every key over {{a,b,''}} up to depth {kd} ({} keys; the unstorable empty key left out): per pair on a fresh core holding only that key: live-only psubscribe of the pattern, set the key, then pget and pdelete of the pattern; required: returned = removed = notified = documented relation (a pattern with a non-final # must match nothing). Plus per pattern once with all keys present (nothing else returned / removed / notified), and once with EVERY valid pattern (depth <= 4) subscribed at the same time on one core (routing must not depend on the other subscriptions). A pair is non-trivial if the documented relation holds for it or the pattern contains a wildcard; distinct = distinct (pattern, key) pairs.",
         patterns.len(),
         keys.len()
     );
+    // all subscriptions at once (patterns up to depth 4, so that no channel can fill up)
+    {
+        let crowd: Vec<String> = patterns.iter().filter(|p| p.split('/').count() <= 4).cloned().collect();
+        let runner = Runner::new(false);
+        match runner.run(crowded(&crowd, &keys)) {
+            Ok(Ok(results)) => {
+                ev.count("subscriptions_held_at_the_same_time", results.len() as u64);
+                for (p, n) in results {
+                    let doc: BTreeSet<String> = keys.iter().filter(|k| model::matches(&p, k)).cloned().collect();
+                    if n != doc {
+                        ev.violation(
+                            format!("C04 crowded: with all other patterns subscribed as well, pattern {p:?} is notified for other keys than documented"),
+                            json!({"pattern": p, "documented": doc, "notified": n, "setup": "every valid pattern up to depth 4 psubscribed (live-only) on one core, then every key set once"}),
+                        );
+                    }
+                }
+            }
+            Ok(Err(e)) => ev.violation(format!("C04 crowded: {e}"), json!({"error": e})),
+            Err(p) => ev.violation(format!("C04 crowded: core panicked: {p}"), json!({"panic": p})),
+        }
+    }
     let shards = 64;
     let patterns_ref = &patterns;
     let keys_ref = &keys;
